@@ -28,7 +28,7 @@ def gen_c19(repo):
         elif re.search(r'regex_match\(\s*\w+\.data\(\)\s*,', body):
             whole = 'false'
         else:
-            raise X.ExtractError(f'{fn}: std::regex_match call not recognised')
+            raise X.ShapeChanged(f'{fn}: std::regex_match call not recognised')
         out.append(f'/-- `{fn}` matches the whole `string_view` (`begin(), end()`), not the C string at `data()` -/\ndef {name} : Bool := {whole}\n')
 
     # the hand-written variants (#else branches): bounds, the extra name characters, and the two guards of D62
@@ -37,14 +37,14 @@ def gen_c19(repo):
     out.append(f'def handNameMaxSize : Nat := {X._int_const(nb, "kMaxSize", "kMaxSize of the hand-written ValidateName")}\n')
     out.append(f'def handUnitMaxSize : Nat := {X._int_const(ub, "kMaxSize", "kMaxSize of the hand-written ValidateUnit")}\n')
     if not re.search(r'if\s*\(\s*!\s*isalpha\(\s*name\[0\]\s*\)\s*\)\s*\{\s*return\s+false', nb):
-        raise X.ExtractError('hand-written ValidateName: first-character test not recognised')
+        raise X.ShapeChanged('hand-written ValidateName: first-character test not recognised')
     m = X._one(r'return\s+!\s*isalnum\(c\)((?:\s*&&\s*\(\s*c\s*!=\s*\'.\'\s*\))*)\s*;', nb, 'hand-written ValidateName: character test')
     extra = [ord(c) for c in re.findall(r"'(.)'", m.group(1))]
     out.append(f'/-- characters the hand-written `ValidateName` allows after the first besides `isalnum` -/\ndef handNameExtraChars : List UInt8 := {X.lean_bytes(extra)}\n')
     out.append('/-- the hand-written `ValidateName` returns false for an empty name before it reads `name[0]` (D62) -/\n'
                'def handNameChecksEmpty : Bool := ' + ('true' if re.search(r'name\.empty\(\)\s*\|\|', nb) else 'false') + '\n')
     if not re.search(r'static_cast<unsigned char>\(c\)\s*>\s*127', ub):
-        raise X.ExtractError('hand-written ValidateUnit: > 127 test not recognised')
+        raise X.ShapeChanged('hand-written ValidateUnit: > 127 test not recognised')
     out.append('/-- the hand-written `ValidateUnit` rejects NUL like the regex `[\\x01-\\x7F]` does (D62) -/\n'
                'def handUnitRejectsNul : Bool := ' + ('true' if re.search(r"c\s*==\s*'\\0'\s*\|\|", ub) else 'false') + '\n')
 
@@ -65,7 +65,7 @@ def gen_c19(repo):
         else:
             pending = ['<default>']
     if not rows or default is None:
-        raise X.ExtractError('GetDefaultAggregationType: switch not recognised')
+        raise X.ShapeChanged('GetDefaultAggregationType: switch not recognised')
     it = X._strip_comments(X._read(repo, 'sdk/include/opentelemetry/sdk/metrics/instruments.h'))
     itypes = re.findall(r'\b(k\w+)\b', X._one(r'enum\s+class\s+InstrumentType\s*\{(.*?)\}', it, 'enum class InstrumentType').group(1))
     atypes = re.findall(r'\b(k\w+)\b', X._one(r'enum\s+class\s+AggregationType\s*\{(.*?)\}', it, 'enum class AggregationType').group(1))
@@ -83,11 +83,16 @@ def gen_c19(repo):
                'def defaultAggTable : List (Nat × Nat) := [' + ', '.join(f'({a}, {b})' for a, b in coded) + ']\n')
     out.append(f'-- default: {default}\ndef defaultAggFallback : Nat := {dflt}\n')
     # default histogram boundaries (both constructors must agree; all values integral)
-    ha = X._strip_comments(X._read(repo, 'sdk/src/metrics/aggregation/histogram_aggregation.cc'))
-    lists = re.findall(r'HistogramAggregation::\w*HistogramAggregation\(const AggregationConfig \*aggregation_config\)\s*\{.*?else\s*\{\s*point_data_\.boundaries_\s*=\s*\{(.*?)\}', ha, re.S)
-    if len(lists) != 2:
-        raise X.ExtractError(f'histogram_aggregation.cc: expected two default boundary lists, found {len(lists)}')
-    parsed = [[float(x) for x in re.findall(r'-?\d+(?:\.\d+)?', l)] for l in lists]
+    # OBSERVED (harness/p_hist.cc compiled from the working tree), not parsed: however the constructors spell the list
+    import struct
+    obs = {}
+    for ln in X.probe(repo, 'harness/p_hist.cc', sdk_srcs=['sdk/src/metrics/aggregation/histogram_aggregation.cc']).splitlines():
+        t = ln.split()
+        if len(t) >= 2 and t[1] == 'boundaries':
+            obs[t[0]] = [struct.unpack('<d', struct.pack('<Q', int(x, 16)))[0] for x in t[2:]]
+    if set(obs) != {'long', 'double'}:
+        raise X.ExtractError('harness/p_hist.cc did not print the default boundaries of both histogram aggregations')
+    parsed = [obs['long'], obs['double']]
     if parsed[0] != parsed[1] or any(v != int(v) or v < 0 for v in parsed[0]):
         raise X.ExtractError('default histogram boundaries of the long and double aggregations differ or are not non-negative integers')
     out.append('/-- default explicit bucket boundaries of `{Long,Double}HistogramAggregation` -/\n'
@@ -105,7 +110,7 @@ def gen_c19(repo):
                   re.search(r'std::string\s+StorageRegistryKey\(.*?\)\s*\{[^}]*name_[^}]*type_[^}]*value_type_[^}]*view_index[^}]*\}', mc, re.S) is not None)
     by_name = len(re.findall(r'storage_registry_\[\s*instrument_descriptor\.name_\s*\]\s*=\s*storage', mc)) == 2
     if not per_stream and not by_name:
-        raise X.ExtractError('meter.cc: how Register*MetricStorage keys storage_registry_ is not recognised')
+        raise X.ShapeChanged('meter.cc: how Register*MetricStorage keys storage_registry_ is not recognised')
     out.append('/-- `storage_registry_` is keyed per stream: instrument name, type, value type, index of the view (D09) -/\n'
                'def storageRegistryPerStream : Bool := ' + ('true' if per_stream else 'false') + '\n')
 
@@ -117,14 +122,14 @@ def gen_c19(repo):
     for part in ('GetNameFilter\(\)->Match\(instrumentation_scope\.GetName\(\)\)', 'GetVersionFilter\(\)->Match\(instrumentation_scope\.GetVersion\(\)\)',
                  'GetSchemaFilter\(\)->Match\(instrumentation_scope\.GetSchemaURL\(\)\)'):
         if not re.search(part, mm):
-            raise X.ExtractError('MatchMeter: expected filter call missing: ' + part)
+            raise X.ShapeChanged('MatchMeter: expected filter call missing: ' + part)
     out.append('/-- `MatchMeter` skips the version / schema filter when the meter\'s own version / schema is empty (D13) -/\n'
                f'def matchMeterSkipsEmpty : Bool := {"true" if lenient else "false"}\n')
     mi = X._one(r'static\s+bool\s+MatchInstrument\s*\(.*?\)\s*\{(.*?)\n  \}', vr, 'MatchInstrument').group(1)
     for part in (r'GetNameFilter\(\)->Match\(instrument_descriptor\.name_\)', r'GetUnitFilter\(\)->Match\(instrument_descriptor\.unit_\)',
                  r'GetInstrumentType\(\)\s*==\s*instrument_descriptor\.type_'):
         if not re.search(part, mi):
-            raise X.ExtractError('MatchInstrument: expected conjunct missing: ' + part)
+            raise X.ShapeChanged('MatchInstrument: expected conjunct missing: ' + part)
     # predicate factory: which literal means "match everything" for each predicate type
     pf = X._strip_comments(X._read(repo, 'sdk/include/opentelemetry/sdk/metrics/view/predicate_factory.h'))
     m = X._one(r'type\s*==\s*PredicateType::kPattern\s*&&\s*pattern\s*==\s*"((?:[^"\\]|\\.)*)"', pf, 'match-everything pattern')
